@@ -86,7 +86,7 @@ MALFORMED = ['nonsuffix', 'empty', 'truncated', 'binary', 'nonutf8', 'nopath', '
              'nopayload', 'orphan', 'dir_in_info', 'infodir_named_trashinfo', 'only_header', 'crlf']
 
 
-def add_malformed(rng, steps, tdir, kind, tag):
+def add_malformed(rng, steps, tdir, kind, tag, path_value=None):
     steps.append(['d', tdir, 0o700])
     steps.append(['d', tdir + '/files', 0o700])
     steps.append(['d', tdir + '/info', 0o700])
@@ -111,11 +111,11 @@ def add_malformed(rng, steps, tdir, kind, tag):
         steps.append(['f', ip, '[Trash Info]\nDeletionDate=2020-01-01T00:00:00\n', 0o600])
         steps.append(['f', fp, 'p', 0o644])
     elif kind == 'nodate':
-        steps.append(['f', ip, '[Trash Info]\nPath=/home/u/w/%s\n' % nm, 0o600])
+        steps.append(['f', ip, '[Trash Info]\nPath=%s\n' % (path_value or '/home/u/w/' + nm), 0o600])
         steps.append(['f', fp, 'p', 0o644])
     elif kind == 'baddate':
-        steps.append(['f', ip, '[Trash Info]\nPath=/home/u/w/%s\nDeletionDate=%s\n' % (
-            nm, rng.choice(['yesterday', '2020-13-45T99:00:00', '2020-01-01', '2020-01-01 00:00:00', ''])), 0o600])
+        steps.append(['f', ip, '[Trash Info]\nPath=%s\nDeletionDate=%s\n' % (
+            path_value or '/home/u/w/' + nm, rng.choice(['yesterday', '2020-13-45T99:00:00', '2020-01-01', '2020-01-01 00:00:00', ''])), 0o600])
         steps.append(['f', fp, 'p', 0o644])
     elif kind == 'nopayload':
         steps.append(['f', ip, '[Trash Info]\nPath=/home/u/w/%s\nDeletionDate=2020-01-01T00:00:00\n' % nm, 0o600])
